@@ -65,6 +65,26 @@ def main():
     w = max(len(r[0]) for r in rows) if rows else 4
     for r in rows:
         print("%-*s  %-4s  %-8s  %s" % (w, r[0], r[1], r[2], r[3]))
+    res_md = os.path.join(V, "seeded", "RESULTS.md")
+    if args and os.path.exists(res_md) and "--no-record" not in sys.argv:
+        # partial run: the rows of these changes replace (or extend) the recorded table
+        lines = open(res_md).read().split("\n")
+        head = [l for l in lines if not l.startswith("| C")]
+        old = {}
+        for l in lines:
+            if l.startswith("| C"):
+                cells = [c.strip() for c in l.strip("|").split("|")]
+                old[(cells[0], cells[1])] = l
+        for r in rows:
+            meta = json.load(open(os.path.join(V, "seeded", r[0], "meta.json")))
+            old[(r[0], r[1])] = "| %s | %s | %s | %s | %s |" % (r[0], r[1], meta.get("needs_to_manifest", "").replace("|", "/"),
+                                                           r[2], r[3].replace("|", "/")[:120])
+        body = [old[k] for k in sorted(old)]
+        with open(res_md, "w") as f:
+            hs = [l for l in head if l.strip()]
+            text = [l for l in hs if not l.startswith("|")]
+            table = [l for l in hs if l.startswith("|")]
+            f.write("\n\n".join(text) + "\n\n" + "\n".join(table + body) + "\n")
     if not args:    # full run: record the table
         with open(os.path.join(V, "seeded", "RESULTS.md"), "w") as f:
             f.write("# Seeded breaking changes vs. the registered checks (%s tier)\n\n" % tier)
